@@ -1,8 +1,8 @@
-/* Ghost state and model types of the tcpframe environment; declared before the
- * real tcp.c so that woven loop invariants can name them.
+/* Ghost state and model types of the sockfdframe environment (copy of modules/tcpframe/ghost.h); declared before the
+ * real sockfd.c so that woven loop invariants can name them.
  *
  * Also pulls in the REAL src/core/aio.c, so that the scatter/gather helpers
- * and plain struct accessors that tcp.c calls on its embedded aios
+ * and plain struct accessors that sockfd.c calls on its embedded aios
  * (nni_aio_set_iov, nni_aio_iov_advance, nni_aio_iov_count, nni_aio_count,
  * nni_aio_result, nni_aio_get_msg, nni_aio_set_msg, nni_aio_set_output) are
  * the real code, not models.  The functions of aio.c that need the aio
